@@ -175,10 +175,27 @@ def _shaped(X, sk):
     return X.copy()
 
 
-def _solve_all(V, P, solver, A, X, tag, obs, transes=TRANS, shapekeys=SHAPEKEYS, check=True):
+def _given(V, A):
+    """(the array handed to the solver, a private copy for the clauses).  Concrete mode: column-major storage, the layout LAPACK
+    can use as work space without a copy (overwrite_a is honoured for it only); the symbolic stand-ins model an overwrite
+    flag as destroying the array whatever its layout, the replay settles it."""
+    A = np.asarray(A)
+    ref = np.array(A, dtype=A.dtype, copy=True)
+    if V.symbolic:
+        from symx.array import wrap as _wrap
+        return A, _wrap(ref)
+    return np.asfortranarray(A), ref
+
+
+def _solve_all(V, P, solver, A, X, tag, obs, transes=TRANS, shapekeys=SHAPEKEYS, check=True, A_live=None):
     """b := op(A) @ x*; obligation solve(b, trans) == x* entry-wise and shape(x) == shape(b)."""
     A = np.asarray(A)
     obs["A"] = _fin(V, A)
+    if A_live is not None and P is not None and check:
+        # the caller's matrix is an input of update(), not work space of the factorisation (it is the state of a signal)
+        P.arrays_eq("%s:matrix-unchanged-by-update" % tag, np.asarray(A_live), A, kind="%s:matrix-unchanged" % tag)
+    if A_live is not None and not V.symbolic:
+        obs["_Alive"] = np.array(A_live, copy=True)
     for t in transes:
         M = _op(A, t)
         for sk in shapekeys:
@@ -245,10 +262,12 @@ def sc_lu(V, P, cfg):
         A0 = _fin(V, L0 @ U0)
         _register(V, "lu", (_perm_matrix(V, list(range(n))), L0, U0))
         s = SolverDenseLU(A0)
-        s.update(A)
+        A_in, A = _given(V, A)
+        s.update(A_in)
     else:
-        s = SolverDenseLU(A)
-    return _solve_all(V, P, s, A, _xstar(V, n, xc), "lu", {})
+        A_in, A = _given(V, A)
+        s = SolverDenseLU(A_in)
+    return _solve_all(V, P, s, A, _xstar(V, n, xc), "lu", {}, A_live=A_in)
 
 
 def _ldl_factors(V, cfg, ac):
@@ -344,9 +363,10 @@ def sc_ldl(V, P, cfg):
             if not hasattr(V.c, "witness_prefs"):
                 V.c.witness_prefs = []
             V.c.witness_prefs.extend(prefs)
+    A_in, A = _given(V, A)
     if cfg.get("ctor"):
         # the documented constructor shortcut: the matrix is handed to the constructor (which calls update itself)
-        s = SolverDenseLDL(A) if cfg["hermitian"] is None else SolverDenseLDL(A, hermitian=cfg["hermitian"])
+        s = SolverDenseLDL(A_in) if cfg["hermitian"] is None else SolverDenseLDL(A_in, hermitian=cfg["hermitian"])
     else:
         s = SolverDenseLDL(hermitian=cfg["hermitian"])
     if cfg.get("prior"):
@@ -357,13 +377,13 @@ def sc_ldl(V, P, cfg):
         _register(V, "ldl", (np.eye(n, dtype=int).astype(object) if V.symbolic else np.eye(n), A0, np.arange(n)))
         s.update(A0)
     if not cfg.get("ctor"):
-        s.update(A)
+        s.update(A_in)
     if P is not None and cfg["hermitian"] is None:
         # auto-detection: the flag the solver settled on must describe the matrix on this path
         o = P.holds("ldl:auto-flag", _is_herm(A) if s.hermitian else _is_sym(A), kind="ldl:auto-flag")
         if o.status != "unsat":
             return None      # a wrong flag is reported at once; the solves on the wrongly flagged factorization are skipped
-    obs = _solve_all(V, P, s, A, _xstar(V, n, xc), "ldl-%s" % cfg["variant"], {})
+    obs = _solve_all(V, P, s, A, _xstar(V, n, xc), "ldl-%s" % cfg["variant"], {}, A_live=A_in)
     obs["flag"] = int(bool(s.hermitian))
     return obs
 
@@ -409,11 +429,12 @@ def sc_cholesky(V, P, cfg):
         _register(V, "ldl", (lfull, D, perm))
     with warnings.catch_warnings():
         warnings.simplefilter("ignore")
+        A_in, A = _given(V, A)
         if s is None:
-            s = SolverDenseCholesky(A)
+            s = SolverDenseCholesky(A_in)
         else:
-            s.update(A)
-    obs = _solve_all(V, P, s, A, _xstar(V, n, xc), "cholesky-%s" % cfg["branch"], {})
+            s.update(A_in)
+    obs = _solve_all(V, P, s, A, _xstar(V, n, xc), "cholesky-%s" % cfg["branch"], {}, A_live=A_in)
     if P is not None:
         P.holds("cholesky:branch", bool(s.success) == (cfg["branch"] == "success"), kind="cholesky:branch")
     else:
@@ -441,8 +462,9 @@ def sc_qr(V, P, cfg):
     Rm = _upper(V, "R", n, ac)
     A = _fin(V, Q @ Rm)
     _register(V, "qr", (Q, Rm))
-    s = SolverDenseQR(A)
-    return _solve_all(V, P, s, A, _xstar(V, n, xc), "qr", {}, transes=tuple(cfg.get("transes", TRANS)))
+    A_in, A = _given(V, A)
+    s = SolverDenseQR(A_in)
+    return _solve_all(V, P, s, A, _xstar(V, n, xc), "qr", {}, transes=tuple(cfg.get("transes", TRANS)), A_live=A_in)
 
 
 # ------------------------------------------------------------------------------------------------
@@ -1080,6 +1102,13 @@ def _fallback_probe(c, obls, lhs, rhs, tries=48):
 DEG_MATS = {"r1": [[2.0, 0.5], [0.5, 3.0]], "r2": [[1.0, -2.0], [-2.0, 5.0]], "c1": [[2.0, 0.5 + 0.25j], [0.5 - 0.25j, 3.0]]}
 
 
+def _tri(n, d=2.2):
+    return [[d if i == j else (-1.0 if abs(i - j) == 1 else 0.0) for j in range(n)] for i in range(n)]
+
+
+DEG_MATS["tri12"] = _tri(12)
+
+
 def sc_cg_degenerate(V, P, cfg):
     """Regression items for the repaired CG-NaN defect (right-hand sides with a zero column / a column the initial guess
     already solves) and for blocks of two right-hand sides (independent, linearly dependent).  Concrete dyadic numbers only (the defect lives exactly where the symbolic run excludes paths: 0/0);
@@ -1104,6 +1133,14 @@ def sc_cg_degenerate(V, P, cfg):
         b = np.stack([b1.astype(complex), 1j * b1.astype(complex), (0.5 - 2j) * b1.astype(complex)], axis=1)
     elif case in ("x0-is-the-rhs-array", "x0-is-the-rhs-block"):
         b = b1 * np.array([1.0, -0.5]) if case.endswith("array") else np.stack([b1, np.array([2.0, -1.0], dtype=A.dtype)], axis=1)
+    elif case == "columns-of-different-norm":
+        # a block whose columns differ in norm by 1e6 and in convergence speed: the large column is (a float approximation of) an
+        # eigenvector, solved by the first block iteration; the small one needs several.  The stopping test is per column,
+        # relative to THAT column's norm (clause: every column is solved to the tolerance relative to its own norm)
+        n_ = A.shape[0]
+        big = 1e3 * np.sin(np.pi * np.arange(1, n_ + 1) / (n_ + 1))
+        small = 1e-3 * np.array([(-1.0) ** i * (1.0 + ((7 * i) % 5) / 4.0) for i in range(n_)])
+        b = np.stack([big, small], axis=1).astype(A.dtype)
     else:   # solved-column: x0[:, 1] solves the second column exactly
         xs = np.array([0.75, 0.875], dtype=A.dtype)
         b = np.stack([b1, A @ xs], axis=1)
@@ -1112,7 +1149,7 @@ def sc_cg_degenerate(V, P, cfg):
         from symx import npshim
         npshim.uninstall()          # plain floats on the real NumPy / SciPy: the library stand-ins are not wanted here
     try:
-        s = CG(sps.csc_matrix(A), tol=1e-10)
+        s = CG(sps.csc_matrix(A), tol=(1e-6 if case == "columns-of-different-norm" else 1e-10))
         with warnings.catch_warnings(record=True) as wl:
             warnings.simplefilter("always")
             if case.startswith("x0-is-the-rhs"):
@@ -1129,6 +1166,8 @@ def sc_cg_degenerate(V, P, cfg):
     scale = max(1.0, float(np.max(np.abs(b))))
     finite = bool(np.all(np.isfinite(x)))
     ok = finite and bool(np.max(np.abs(res)) <= 1e-8 * scale)
+    if case == "columns-of-different-norm":
+        ok = finite and all(float(np.linalg.norm(res[:, j])) <= 1e-5 * float(np.linalg.norm(b[:, j])) for j in range(b.shape[1]))
     if P is not None:
         P.holds("cgdeg:finite", finite, kind="cg-degenerate:%s" % case)
         P.holds("cgdeg:solves-every-column", ok, kind="cg-degenerate:%s" % case)
@@ -1497,6 +1536,8 @@ def items(tier):
         for mat in ("r1", "r2", "c1"):
             for t in (("N",) if mat != "c1" else TRANS):
                 add("cgdeg", "%s-%s-%s" % (case, mat, t), case=case, mat=mat, trans=t)
+    for t in TRANS:
+        add("cgdeg", "columns-of-different-norm-tri12-%s" % t, case="columns-of-different-norm", mat="tri12", trans=t)
     cg("N", "identity", True, 1, 1, "r", False, False, shape="c1")
     cg("H", "jacobi", False, 1, 1, "c", True, True, shape="c1", sparse=False)
     if not q:
@@ -1591,6 +1632,10 @@ def replay(cfg, label, env, case):
     if kind in ("diagonal", "lu", "ldl", "cholesky", "qr", "sparselu", "precond"):
         parts = label.split("[")[0].split(":")
         if len(parts) < 3 or parts[1] not in TRANS:
+            if "matrix-unchanged-by-update" in label:
+                Al = obs.get("_Alive")
+                ch = float(np.max(np.abs(np.asarray(Al, dtype=complex) - np.asarray(obs["A"], dtype=complex)))) if Al is not None else 0.0
+                return dict(reproduced=bool(ch > 0), detail=dict(max_abs_change_of_the_callers_matrix=ch, layout="column-major"))
             if label.startswith("cholesky:branch"):
                 flag = obs.get("success_flag")
                 return dict(reproduced=bool(flag != int(cfg["branch"] == "success")),
